@@ -39,7 +39,7 @@ func getAccount(w http.ResponseWriter, r *http.Request) {
 				EffectiveVolumes: ledger.VolumesByAssets{},
 			}
 		default:
-			common.HandleCommonErrors(w, r, err)
+			common.HandleCommonPaginationErrors(w, r, err)
 			return
 		}
 	}
